@@ -73,7 +73,15 @@ Theorem C09_registration_carries_the_configuration : forall cfg, c_password cfg 
             Ok (registration_value (c_password cfg) (c_currency cfg), r).
 Proof. exact registration_on_the_wire. Qed.
 
+(* an UNEXPECTED reply (since the fix of F13): the query for a dangling pre-authorisation answered by a packet that is decodable and
+   in the reply set but not what this exchange may be answered with leaves NO connection behind, in every world — the next
+   sequence starts by connecting, with registration and identity check (C09_history_registration_first) *)
+Theorem C09_unexpected_reply_abandons_connection : forall cfg w w',
+  get_pending cfg w = (RErr EUnexpectedPacket, w') -> w_cur w' = None.
+Proof. exact unexpected_reply_abandons_connection. Qed.
+
 Print Assumptions C09_after_err_drops_connection.
+Print Assumptions C09_unexpected_reply_abandons_connection.
 Print Assumptions C09_registration_carries_the_configuration.
 Print Assumptions C09_drop_clears_current.
 Print Assumptions C09_history_never_reuses_a_dropped_connection.
